@@ -3,6 +3,7 @@
 use crate::groups::Groups;
 
 pub mod c11;
+pub mod c18;
 pub mod twin;
 
 pub struct PropDef {
@@ -20,7 +21,7 @@ pub struct PropDef {
 }
 
 pub fn all() -> &'static [PropDef] {
-    &[c11::DEF]
+    &[c11::DEF, c18::DEF]
 }
 
 /// Serde helper: u128 as decimal string (serde_json cannot read back large
